@@ -1194,7 +1194,12 @@ class Sim(object):
             return
         if lines != want:
             self.violate("cli_model", "rec", step_no, argv=argv,
-                         got_lines=lines[:12], want_lines=want[:12])
+                         got_lines=lines[:12], want_lines=want[:12],
+                         form=spec["form"],
+                         fractional_anchor=bool(w["us"]),
+                         only_last_point_missing=(
+                             len(want) > 1 and lines == want[:-1]
+                             and len(want) == (spec["reps"] or 0)))
 
     # ---- K5
     def check_bad(self, step, spec, argv, status, out, step_no):
